@@ -5,7 +5,7 @@
     newcomer's (C13_unsync_admission: [p.*1.*1 = take (length p) (lru_keys s1)]); and the LRU
     order is the recency order of the history: insert, update and successful get move the key
     to the most-recently-used end, nothing else reorders. *)
-From MM Require Import Unsync.UInvDefs Unsync.UInv Unsync.UPolicyDefs Unsync.UPolicy Sync.SInvDefs Sync.SPolicyDefs Sync.SPolicy Sync.SRecency.
+From MM Require Import Unsync.UInvDefs Unsync.UInv Unsync.UPolicyDefs Unsync.UPolicy Sync.SInvDefs Sync.SPolicyDefs Sync.SPolicy Sync.SRecency Sync.SEndToEnd.
 
 Theorem C12_unsync_eviction_is_shortest_lru_prefix : forall c s s',
   cfg_ok c -> WF' c s -> small s -> evict_lru_entries c s = Ok s' ->
@@ -151,6 +151,50 @@ Theorem C12_sync_applied_reads_recency : forall c s n s',
   (forall nid nd, (nid, nd) ∈ s_prob s' <-> (nid, nd) ∈ s_prob s).
 Proof. exact apply_reads_recency. Qed.
 
+(** OPERATION LEVEL, concurrent cache with maintenance after every operation (Sync/SEndToEnd.v): the
+    operation and the maintenance run that follows it, composed, in BOTH housekeeping regimes, stated on
+    the quiescent state before the operation (no expiry configured, no invalidate_all cut-off pending). *)
+Theorem C12_sync_get_then_maintenance : forall c r k r1 v r2 o2,
+  let s := sr_state r in let s' := sr_state r2 in
+  scfg_ok c -> SInv c s -> s_small s -> quiescent s -> noexp c s -> within c s ->
+  sstep c r (SGet k) = Ok (r1, SOVal (Some v)) -> sstep c r1 SSync = Ok (r2, o2) ->
+  SInv c s' /\ quiescent s' /\ s_view s !! k = Some v /\
+  s_view s' = s_view s /\ s_lru_keys s' = touch k (s_lru_keys s) /\ s_ws s' = s_ws s.
+Proof. exact s_get_sync_outcome. Qed.
+
+Theorem C12_sync_miss_then_maintenance : forall c r k r1 r2 o2,
+  let s := sr_state r in let s' := sr_state r2 in
+  scfg_ok c -> SInv c s -> s_small s -> quiescent s -> noexp c s -> within c s ->
+  sstep c r (SGet k) = Ok (r1, SOVal None) -> sstep c r1 SSync = Ok (r2, o2) ->
+  SInv c s' /\ quiescent s' /\ s_view s !! k = None /\
+  s_view s' = s_view s /\ s_lru_keys s' = s_lru_keys s /\ s_ws s' = s_ws s.
+Proof. exact s_miss_sync_outcome. Qed.
+
+Theorem C12_sync_update_then_maintenance : forall c r k v v0 r1 o1 r2 o2,
+  let s := sr_state r in let s' := sr_state r2 in let w := sweigh c k v in
+  scfg_ok c -> SInv c s -> s_small s -> s_next s + 1 < 2 ^ 31 ->
+  quiescent s -> noexp c s -> within c s ->
+  s_view s !! k = Some v0 ->
+  sstep c r (SInsert k v) = Ok (r1, o1) -> sstep c r1 SSync = Ok (r2, o2) ->
+  SInv c s' /\ quiescent s' /\
+  let order := touch k (s_lru_keys s) in
+  let m := <[k := v]> (s_view s) in
+  let total := s_ws s + w - sweigh c k v0 in
+  let excess := match sc_cap c with Some cap => total - cap | None => 0 end in
+  k ∈ s_lru_keys s /\ sweigh c k v0 <= s_ws s /\
+  exists n,
+    s_lru_keys s' = drop n order /\
+    s_view s' = delete_keys (take n order) m /\
+    s_ws s' + keys_weight c m (take n order) = total /\
+    (n = 0%nat \/ keys_weight c m (take (n - 1) order) < excess) /\
+    (excess <= keys_weight c m (take n order) \/ n = batch_s \/ n = length order) /\
+    (n = 0%nat <-> excess = 0) /\
+    (within c s' \/ n = batch_s).
+Proof. exact s_update_sync_outcome. Qed.
+
+Print Assumptions C12_sync_get_then_maintenance.
+Print Assumptions C12_sync_miss_then_maintenance.
+Print Assumptions C12_sync_update_then_maintenance.
 Print Assumptions C12_sync_applied_hit_moves_to_mru.
 Print Assumptions C12_sync_applied_update_moves_to_mru.
 Print Assumptions C12_sync_applied_miss_keeps_order.
